@@ -103,6 +103,8 @@ theorem step_other_g {a : Agent} (hi : Inv a) (hst : a.started = true) (e : Ev) 
     · subst hres; exact G.refl _ _ _ _ _
     · rename_i hc
       have hc' : a.closed = false := by simpa using hc
+      split at hres
+      · subst hres; exact G.refl _ _ _ _ _
       subst hres
       exact (thenForced now (addRemoteCandidate_g hi c hc') (hi.addRemoteCandidate c hc').1.idsNodup hnf).1
   | start now ctl ru rp =>
